@@ -778,6 +778,43 @@ func ruleIsolation(r *Report) {
 // ruleRelease: C02.release (FX8)
 func ruleRelease(r *Report) {
 	h := r.Rule("C02.release", "P+A", "every offset reserved by a transaction is released when it does not commit: a failing insert frees its offset and leaves no insert marker; rollback clears, under the exclusive collection mutex, the fill bits of the transaction's insert markers before recounting", 4)
+	ruleFreeCallers(r)
+	ruleReleaseRest(r, h)
+}
+
+// ruleFreeCallers (C02.release/free/caller/…): an offset is given back by the function that reserved
+// it: Collection.free is called (through helpers) only by Txn.insert — a second release, by a caller
+// that sees the error, hands the offset to another writer while the first release's protocol (marker,
+// rollback) still owns it.
+func ruleFreeCallers(r *Report) {
+	h := r.Rule("C02.free", "who-may-call", "a reserved offset is given back by the insert that reserved it: Collection.free is called, through helpers, only by Txn.insert", 1)
+	{
+		var sites []ssa.Instruction
+		for fn := range r.P.modFunc {
+			if fn.Origin() != nil {
+				continue
+			}
+			for _, c := range callsTo(fn, true, "(*column.Collection).free") {
+				sites = append(sites, c)
+			}
+		}
+		sort.Slice(sites, func(i, j int) bool { return sites[i].Pos() < sites[j].Pos() })
+		for _, c := range sites {
+			owner := topFn(c.Parent())
+			for k := 0; k < 4 && isHelper(owner); k++ {
+				ci := uniqueCallOf(owner)
+				if ci == nil {
+					break
+				}
+				owner = topFn(ci.Parent())
+			}
+			n := fnName(owner)
+			h.Check(n == "(*column.Txn).insert", "caller/"+n, r.P.InstrPos(c), "released by the insert that reserved it", "Collection.free is called outside Txn.insert: the offset is released a second time (or by someone who did not reserve it) — free() hands it back at once, so another writer's committed row at that offset is un-filled or overwritten when the first owner's rollback or marker catches up")
+		}
+	}
+}
+
+func ruleReleaseRest(r *Report, h *RuleH) {
 	ins := r.Anchor("(*column.Txn).insert")
 	if ins != nil {
 		next := callsToDeep(ins, false, "(*column.Collection).next")
